@@ -351,8 +351,17 @@ func genMacroGraph(r *Rand) *Project {
 		p.Features = append(p.Features, fmt.Sprintf("macro-cycle-len-%d", L))
 	}
 	path := 0
+	nearMiss := r.Chance(1, 4)
+	if nearMiss {
+		p.Features = append(p.Features, "near-miss-macro-names")
+	}
 	edge := func(ind string, to int) string {
 		paste := fmt.Sprintf("PASTE @g%d", to)
+		if nearMiss && r.Chance(1, 3) {
+			// a near miss of the macro's name: another letter case, or a longer name that starts
+			// with it. No macro of that name exists: "macro not found", whatever the graph looks like
+			paste = []string{fmt.Sprintf("PASTE @G%d", to), fmt.Sprintf("PASTE @g%dx", to), fmt.Sprintf("PASTE @g%d ", to)}[r.Intn(3)]
+		}
 		path++
 		switch r.Intn(6) {
 		case 0:
